@@ -651,12 +651,14 @@ func Run(r *mon.Run) {
 		"IDs: one unidirectional generation in eight of the cross / series engines presents an ID of 1 KiB - 64 KiB ('the next shell, with any ID, is accepted'). " +
 		"patience engine (the terminal is stalled for a LONG time): in worlds of their own that all run next to the other engines, the operator's terminal stops taking lines behind an operator channel (capacity 0/1/2/8/64/1024) that is full {with exactly as much shell output as fits, with shell output up to the forwarder's hands and the broker's own queue, with lines of the program's other writers}; then a direction ends in one of 20 ways {uni full / in-only / out-only, bidirectional} x {input: ctx cancel, writer error, flush error; output: ctx cancel, EOF, read error; both at once by their own causes; the /io request's context}, the harness sleeps 6 s, 12 s or 31 s (each world about half a minute in all), the terminal reads again, and the generation is judged like a series generation (one closure notice per attached unidirectional direction, then exactly one gone notice, ready notice iff fully attached, one Disconnected record per stream, one disconnected event per listener, every Connect returns without its transport being closed), the next shell (fresh ID) is attached and passes an I/O probe both ways; in two worlds the SECOND direction of a shell attaches while the terminal is stalled and full for 12 s (ready notice exactly once, connected event). " +
 		"longlife engine: ONE broker (thorough: one with 120,000 shells and three more with 12,000) serves 12,000 shells in series in a lean counting world, in a child process of its own: fifteen in sixteen bidirectional (more than 11,000, thorough more than 110,000 ConnectInOut calls on one broker), the others unidirectional {full either order, in-only, out-only} with IDs {8-40 B, 1025-1100 B, 1 KiB - 64 KiB}, ended by {output EOF, read error, last chunk + EOF, ctx cancel of either side or of the /io request, writer error}; EVERY shell: attached (both New connection records; a refusal or a Connect that returns instead is the violation), ready notice + connected event at both listeners iff fully attached, every Connect returns after the ending, and when a marker line comes out of the operator channel: exactly one gone notice, closure notices as in the series engines, nothing after the gone notice, one Disconnected record per stream, each listener exactly one disconnected event per shell so far; a sample (first 20, every 500th, bidirectional ordinals 10^k +-3, last 5) also passes an I/O probe both ways and, transports closed, the goroutine scan; at the end Do returns at shutdown and the event totals are exact. " +
+		"realcfg engine (the REAL BINARY under its documented configurations; main's wiring, start-up and shutdown order included): curlrevshell (race + verif build of /repo's working tree) runs on a pty, fake shells speak raw HTTP over TLS; CONFIGURATION MATRIX per round (quick 1, thorough 3 rounds with other variants): the default configuration, each of {-ipv6-one-liners, -no-timestamps, -serve-files-from (directory / single file / empty value / ../ spelling / symlink / spaces at the edges), -callback-address (name / with port / dozens / the same twice), -callback-template (regular file / symlink / missing at start-up), -ctrl-i (file / directory / missing / small / names with % or spaces), -log (flag / CURLREVSHELL_LOG / flag twice / flag over environment), -prompt, -tls-certificate-cache (explicit / default / next to the served files)} alone and all 36 pairs, every flag in one of the spellings -f v / -f=v / --f v / --f=v; -icanhazip alone and with one more option (no network: the program does not get as far as listening, counted only); -one-shell alone and with each other option for the shutdown part, alone and with three others for a single-shell series. Per program a SERIES of 4-7 (thorough 4-10) shells {/i+/o, /io} x {full (always the first), in-only, out-only} x {idle, output flood, typed burst} x {client closes / resets input or output, output ends by itself, both closed}, IDs of three shapes, a file request between two shells where files are served; every generation is judged like an httpserial generation, on the terminal text: accepted (connection not refused, ready notice iff fully attached, a typed line reaches it, its output is displayed), after the ending one gone notice, each attached direction's closure notice before it (unidirectional shells), the callback help once, every request the client has not dropped ended by the server without further traffic, with -log one Disconnected record per New connection record; the next shell must be accepted again. Then the SHUTDOWN: a last shell (/i+/o or /io) attaches and passes the probe; in two cases out of three its input stream is made unable to end at once: the client (receive buffer 4 KiB) reads 0-8 typed lines, Tab inserts a 14 MB Ctrl+I source (one write), the client reads the first lines of it and stops reading; the operator presses Ctrl+D or Ctrl+C (alternating by index); the client hangs up 3-8 s later {closes / resets the input connection, closes both}: the process must still be there at that moment, must exit within 30 s after it, and with -log every New connection record must have its Disconnected record before 'Program terminating'; in the third case the shell is idle and its clients just stay connected (exit within 30 s, same log order). " +
 		"distinct = distinct generation parameter tuples executed"
 	r.Assumptions = []string{"goroutine-leak scans run in child processes that execute one series at a time", "listener events are awaited (bounded) before shutdown; nothing is asserted about events around shutdown",
 		"http engines: a request counts as ended when its response has arrived completely or the connection has been closed/reset by the server; a keep-alive connection left idle after a complete response is not held against the server; the 20 s bound on that is a progress bound of the property itself ('without needing further traffic')",
 		"backlog engine: a broker that makes a shell wait while a listener does not read is not held against it; the no-progress detector (750 ms) only decides when the paused listener resumes, the verdict is on the complete event sequences afterwards and on the series getting through once every listener reads (no progress for 20 s = violation)",
 		"patience engine: the sleeps (6/12/31 s) only create the situation, no verdict depends on them: the notices are looked for when a marker line, sent after every Connect call has returned, comes out of the operator channel (bounded waits of 10 s each after the terminal resumed: a Connect that does not return then is a violation of 'the other direction is ended as well', a marker that does not arrive is inconclusive); that the first notice of the tear-down really waited out the stall is read off the event log (Disconnected record before the resume note, notice displayed after it as line capacity+2 or later since the stall began) and counted, not asserted; ways whose output ends by itself (EOF, error) are only combined with fills that leave the forwarder idle, since a forwarder stuck on the terminal with a chunk in its hands cannot notice the end of its stream before the terminal reads again; 'last chunk + error' is left to the series engines for the same reason",
 		"longlife engine: shells come strictly one after the other (the next one starts after the previous one's marker line has been displayed and its transports are closed); operator lines that are none of the known notices are not judged (kept in the witness); a marker line that does not come out of the operator channel within 10 s is inconclusive",
+		"realcfg engine: what the program's terminal displays is taken as what the operator sees while the program is running; once the operator has asked it to quit (or, with -one-shell, once its one shell has gone and it winds down) notices still queued for the terminal are not required to be displayed, the shutdown is judged on the process's lifetime and on the JSON log instead (when the configuration has one); two shutdowns in three need a Ctrl+I source of 14 MB, which is added to the configuration when the cell has no -ctrl-i of its own (the cell is then exercised without it at another seed: the choice rotates with index + seed); the stalled stream is certain, not timed: the whole insertion is ONE write of the broker, the client has read its beginning (so the write has begun) and more is outstanding than the socket buffers hold (server send buffer at most 4 MiB, client receive buffer fixed small), so it cannot return before the client hangs up; 'the process is still there when the client hangs up' is the shutdown clause itself (the broker - and the program around it - finishes only after every attached stream has ended), 'exits within 30 s after the hang-up' and the 30 s waits for notices are progress bounds (normally milliseconds); a -one-shell program that is still running 6 s after its shell has gone is counted, not judged; -icanhazip without network is only counted as not started",
 		"lockwait engine: which of the waiting parties the broker serves first once the terminal reads again is the broker's choice and is not asserted (a newcomer may be refused or attached); the pauses after the shutdown and after the newcomers' admit points (2-32 ms each) and the time attached streams are kept open (40-160 ms) only make the overlap likely and give a premature return of Do time to show, the verdict never depends on them; a Connect call that neither attaches nor returns within 10 s after the terminal resumed is inconclusive, Do not returning within 10 s after every stream has ended is a violation (progress clause of the shutdown sentence)"}
 	cp := crossProduct()
 	r.Count("cross_product_points", int64(len(cp)))
@@ -670,6 +672,10 @@ func Run(r *mon.Run) {
 	if r.WantEngine("longlife") {
 		bg.Add(1)
 		go func() { defer bg.Done(); longLifeCases(r) }()
+	}
+	if r.WantEngine(realEngine) {
+		bg.Add(1)
+		go func() { defer bg.Done(); realCfgCases(r); r.Logf("realcfg done") }()
 	}
 	parts := runtime.NumCPU()
 	for _, engine := range []string{"cross", "series", "httpserial"} {
@@ -707,9 +713,11 @@ func Run(r *mon.Run) {
 	}
 	bg.Wait()
 	r.Logf("patience / longlife done")
-	r.Floor("generations_judged", 200)
-	r.Floor("leak_scans", 200)
-	r.Floor("shutdown_cases", 20)
+	if !r.Replaying() {
+		r.Floor("generations_judged", 200)
+		r.Floor("leak_scans", 200)
+		r.Floor("shutdown_cases", 20)
+	}
 	if r.WantEngine("cross") && !r.Replaying() {
 		r.Floor("series_with_slow_listener", 5)
 		r.Floor("readers_holding_the_stream_end_behind_a_full_queue", 10)
